@@ -125,7 +125,49 @@ fn value_of(ty: &str, expr: &str) -> String {
     }
 }
 
+/// `<debug> N <n> <first const>`: an enum whose first enumerator has this value and n more follow without initialisers
+fn run_enum(w: &[&str]) -> String {
+    if w.len() < 4 { return "BAD-CASE".into(); }
+    let n: usize = match w[2].parse() { Ok(n) => n, Err(_) => return "BAD-CASE".into() };
+    let first = match (w[3], w.get(4).copied(), w.get(5).copied()) {
+        ("b", Some("0"), _) => "false".to_string(),
+        ("b", Some("1"), _) => "true".to_string(),
+        ("i", Some(kind), Some(z)) => {
+            let mag = z.trim_start_matches('-');
+            let lit = if z.starts_with('-') { format!("(-{})", mag) } else { mag.to_string() };
+            match kind { "IntLiteral" => lit, "Int32" => format!("(int){}", lit), "UInt32" => format!("{}u", mag), _ => return "BAD-CASE".into() }
+        }
+        _ => return "BAD-CASE".into(),
+    };
+    let mut src = format!("enum EN {{ A0 = {}", first);
+    for i in 1..=n { src += &format!(", A{}", i); }
+    src += " };\n";
+    let o = crate::probe::compile_src(&[("main.rssl", &src)], "main.rssl", "HlslForDirectX", true, false, None, &[]);
+    if o.kind == "PANIC" { return "PANIC".into(); }
+    if o.kind != "OK" {
+        return if o.text.contains("can not fit in any type") { "ENUM-NO-TYPE".into() } else { format!("REJECT:{}", o.text.lines().next().unwrap_or("")) };
+    }
+    match catch(|| front_end(&src)) {
+        Ok(Ok(m)) => {
+            let id = ir::EnumId(0);
+            let mut out = format!("ENUM {}", scalar_name(m.enum_registry.get_underlying_scalar(id)));
+            for v in m.enum_registry.get_values(id) {
+                out += &match &m.enum_registry.get_enum_value(*v).value {
+                    ir::Constant::Int32(x) => format!(" {}", x),
+                    ir::Constant::UInt32(x) => format!(" {}", x),
+                    other => format!(" ?{:?}", other),
+                };
+            }
+            out
+        }
+        Ok(Err(e)) => format!("REJECT:{}", e),
+        Err(_) => "PANIC".into(),
+    }
+}
+
 pub fn run_line(line: &str) -> String {
+    let w: Vec<&str> = line.split_whitespace().collect();
+    if w.len() > 1 && w[1] == "N" { return run_enum(&w); }
     let parts: Vec<&str> = line.split(" # ").collect();
     if parts.len() != 3 {
         return "BAD-CASE".into();
@@ -247,6 +289,13 @@ fn gen_any(rng: &mut Rng, depth: u32, ty: &str) -> String {
 pub fn gen_cases(seed: u64, n: usize, _thorough: bool) -> Vec<String> {
     let mut rng = Rng::new(seed);
     let mut out = Vec::new();
+    // enumerators without initialisers after a first value at and around the ends of every range
+    for first in ["b 0", "b 1", "i IntLiteral 0", "i IntLiteral 7", "i IntLiteral -3", "i IntLiteral 2147483646", "i IntLiteral 2147483647", "i IntLiteral 2147483648", "i IntLiteral 4294967294",
+                  "i IntLiteral 4294967295", "i IntLiteral 4294967296", "i IntLiteral -2147483648", "i IntLiteral -2147483649", "i IntLiteral -1", "i Int32 0", "i Int32 -5", "i Int32 2147483645",
+                  "i Int32 2147483646", "i Int32 2147483647", "i Int32 -2147483648", "i Int32 -1", "i UInt32 0", "i UInt32 5", "i UInt32 2147483647", "i UInt32 2147483648", "i UInt32 4294967293",
+                  "i UInt32 4294967294", "i UInt32 4294967295"] {
+        for k in 0..4 { out.push(format!("1 N {} {}", k, first)); }
+    }
     let mut push = |ty: &str, expr: String, out: &mut Vec<String>| {
         if let Ok(Ok(ir)) = catch(|| ir_of(ty, &expr)) {
             for debug in ["1"] {
